@@ -122,13 +122,24 @@ def fam_loops():
             return ("for", [("each", var, it)], ("yield", body, None))
         if kind == "for2":
             return ("for", [("each", var, it), ("each", var + "2", L34)], ("yield", body, None))
+        # every kind of for-clause as the innermost one: index/value iteration, a declaration clause, a guard
+        if kind == "foritem":
+            return ("for", [("item", var + "k", var, it)], ("do", body))
+        if kind == "foritemyield":
+            return ("for", [("item", var + "k", var, it)], ("yield", body, None))
+        if kind == "foreachitem":
+            return ("for", [("each", var + "o", L34), ("item", var + "k", var, it)], ("yield", body, None))
+        if kind == "forlet":
+            return ("for", [("each", var + "o", it), ("let", var, V(var + "o"))], ("do", body))
+        if kind == "forguard":
+            return ("for", [("each", var, it), ("guard", I(1))], ("yield", body, None))
         if kind == "while":
             cnt = "c" + var
             return seq(("decl", cnt, I(0)), ("while", ("bin", "<", V(cnt), I(2)),
                                              seq(("opset", cnt, "+", I(1)), ("decl", var, V(cnt)), body)))
         raise KeyError(kind)
-    for ok in ("for", "foryield", "while", "for2"):
-        for ik in ("for", "foryield", "while"):
+    for ok in ("for", "foryield", "while", "for2", "foritem"):
+        for ik in ("for", "foryield", "while", "foritem", "foritemyield", "foreachitem", "forlet", "forguard"):
             for ex in exits:
                 for guard in (("bin", "==", V("j"), I(2)), ("bin", "==", V("j"), I(1)), I(1)):
                     for pos in ("before", "after"):
